@@ -126,11 +126,12 @@ Definition unchanged (with_clients : bool) (pt : list (str * N)) (pc : list (str
                      (t : list (str * N)) (c : list (str * str * N)) : bool :=
   same_set topic_eqb pt t && same_set (chan_eqb with_clients) pc c.
 
-(* what moved stays within topic [t] / channel [ch] *)
+(* what moved stays within topic [t] / channel [ch] (clients may leave any channel: a
+   connection that closes is removed from the channel it consumed) *)
 Definition confined (t ch : str) (pt : list (str * N)) (pc : list (str * str * N))
                     (nt : list (str * N)) (nc : list (str * str * N)) : bool :=
   forallb (fun x => existsb (topic_eqb x) pt || str_eqb (fst x) t) nt &&
-  forallb (fun x => existsb (chan_eqb true x) pc ||
+  forallb (fun x => existsb (fun y => chan_eqb false x y && (snd x <=? snd y)%N) pc ||
                     match x with (t', c', _) => str_eqb t' t && str_eqb c' ch end) nc.
 
 (* the answers the stub served for the [q] requests of a group, starting at stream position [o] *)
